@@ -146,9 +146,37 @@ pub fn show_word(w: &[u32]) -> String {
     format!("{:?}", w)
 }
 
+/// End points of a CharSet, recovered through `contains` only (pick() may return any member): binary search for the
+/// first and the last member around a known member.
+pub fn bounds_of(cs: &CharSet) -> (u32, u32) {
+    let p = cs.pick();
+    // smallest member in [0, p]
+    let (mut lo, mut hi) = (0u32, p);
+    while lo < hi {
+        let mid = lo + (hi - lo) / 2;
+        if cs.contains(mid) {
+            hi = mid;
+        } else {
+            lo = mid + 1;
+        }
+    }
+    let start = lo;
+    // largest member in [p, MAX]
+    let (mut lo, mut hi) = (p, MAX_CHAR);
+    while lo < hi {
+        let mid = lo + (hi - lo + 1) / 2;
+        if cs.contains(mid) {
+            lo = mid;
+        } else {
+            hi = mid - 1;
+        }
+    }
+    (start, lo)
+}
+
 /// intervals of the derivative classes of a term, as (lo, hi)
 pub fn class_intervals(t: RegLan) -> Vec<(u32, u32)> {
-    t.char_ranges().map(|r| (r.pick(), r.pick() + (r.size() - 1))).collect()
+    t.char_ranges().map(bounds_of).collect()
 }
 
 pub fn my_class_of(ivs: &[(u32, u32)], c: u32) -> ClassId {
@@ -649,7 +677,7 @@ fn bucket(n: usize) -> String {
 // C02
 
 fn state_intervals(a: &Automaton, s: usize) -> Vec<(u32, u32)> {
-    a.state(s).char_ranges().map(|r| (r.pick(), r.pick() + (r.size() - 1))).collect()
+    a.state(s).char_ranges().map(bounds_of).collect()
 }
 
 fn check_auto_language(u: &Universe, a: &Automaton, rf: &Dfa, what: &str, rep: &mut Report, msgs: &mut Vec<String>) -> Option<Prod> {
@@ -1068,7 +1096,7 @@ pub fn check_tables(a: &Automaton, extra_chars: &[u32], rep: &mut Report, msgs: 
     if alpha.len() != part.num_classes() {
         msgs.push(format!("pick_alphabet has {} characters but combined_char_partition has {} classes", alpha.len(), part.num_classes()));
     }
-    let pivs: Vec<(u32, u32)> = part.ranges().map(|r| (r.pick(), r.pick() + (r.size() - 1))).collect();
+    let pivs: Vec<(u32, u32)> = part.ranges().map(bounds_of).collect();
     if !sorted_disjoint(&pivs) {
         msgs.push(format!("combined_char_partition intervals {:?} are not sorted/disjoint", pivs));
         return;
@@ -1218,7 +1246,7 @@ fn check_c14(ch: &mut Chunk<'_>, t: RegLan, shallow: bool, rep: &mut Report) -> 
         // every character of the alphabet falls in the class of the combined partition that the intervals say,
         // and the compiled table agrees with next() for it
         let part = a.combined_char_partition();
-        let pivs: Vec<(u32, u32)> = part.ranges().map(|r| (r.pick(), r.pick() + (r.size() - 1))).collect();
+        let pivs: Vec<(u32, u32)> = part.ranges().map(bounds_of).collect();
         let alpha = a.pick_alphabet();
         let tbl = a.compile_successors();
         let idx_of_class: HashMap<String, usize> = alpha.iter().enumerate().map(|(i, &c)| (format!("{}", my_class_of(&pivs, c)), i)).collect();
